@@ -70,6 +70,7 @@ struct Scene {
     int originBody = 0, termBody = 0; Vec3 O_G, T_G, originStation, termStation;
     int alg = 0, tolKind = 0; double smoothTol = 1e-9, curveAcc = 1e-11, tension = 3; bool defaultTol = false;
     int nObst = 0, nVia = 0; bool pathVariant = false;
+    double histU[8] = {1, -0.5, 0.7, -1.2, 0.3, 0.9, -0.8, 0.4}, histDq = 0.5; bool histQFirst = false;   // same-State history: new speeds, q displacement, order
 };
 
 Scene decode(const pbt::Tape& t) {
@@ -130,6 +131,9 @@ Scene decode(const pbt::Tape& t) {
         }
     }
     if (allOnOneBody) { int b = S.originBody; S.termBody = b; for (auto& it : S.items) it.body = b; }
+    // same-State history (read last so that older tapes keep their meaning): replacement speeds, q displacement, order of the steps
+    { bool any = false; double hu[8]; for (int i = 0; i < 8; ++i) { hu[i] = g.real(-2, 2); if (hu[i] != 0) any = true; } if (any) for (int i = 0; i < 8; ++i) S.histU[i] = hu[i];
+      double dq = g.real(-1, 1); if (dq != 0) S.histDq = dq; S.histQFirst = g.boolean(); }
     return S;
 }
 
@@ -392,34 +396,58 @@ void judge(Scene& S, pbt::Ctx& ctx) {
         mbgen::Built M(S.model); CableTrackerSubsystem tracker(M.sys);
         CablePath path(tracker, M.mb[S.originBody], S.originStation, M.mb[S.termBody], S.termStation);
         for (auto& it : S.items) if (it.kind == VIA) CableObstacle::ViaPoint(path, M.mb[it.body], it.station);
-        double Lp = NaN, Lpd = NaN, Pp = NaN, Pc = NaN; Vec3 netF(0), netM(0); std::vector<Vec3> p, v; bool threw = false; std::string what;
-        {   // CablePath.cpp prints debugging text to stdout: silence fd 1 meanwhile
+        struct PD { double Lp = NaN, Lpd = NaN, Pp = NaN, Pc = NaN; Vec3 netF = Vec3(0), netM = Vec3(0); std::vector<Vec3> p, v; bool threw = false; std::string what; };
+        // everything CablePath reports at one state (stdout silenced: CablePath.cpp prints debugging text); `prep` runs first, inside the guard
+        auto evalPath = [&](State& sp, const std::function<void()>& prep) { PD o;
             fflush(stdout); std::cout.flush(); int saved = dup(1), nul = open("/dev/null", O_WRONLY); if (nul >= 0) { dup2(nul, 1); close(nul); }
             try {
-                M.finish(S.model); M.setState(S.model); State& sp = M.state; M.sys.realize(sp, Stage::Velocity);
-                Lp = path.getCableLength(sp); Lpd = path.getCableLengthDot(sp);
-                const int nBp = M.matter.getNumBodies(); Vector_<SpatialVec> F(nBp); F = SpatialVec(Vec3(0), Vec3(0)); path.applyBodyForces(sp, T, F); Pp = 0;
-                for (MobilizedBodyIndex b(0); b < nBp; ++b) { const MobilizedBody& mb = M.matter.getMobilizedBody(b); SpatialVec V = mb.getBodyVelocity(sp); Pp += dot(F[b][0], V[0]) + dot(F[b][1], V[1]); netF += F[b][1]; netM += F[b][0] + mb.getBodyOriginLocation(sp) % F[b][1]; }
-                Pc = path.calcCablePower(sp, T);
-                p.push_back(M.mb[S.originBody].findStationLocationInGround(sp, S.originStation)); v.push_back(stationVel(M, sp, S.originBody, S.originStation));
-                for (auto& it : S.items) if (it.kind == VIA) { p.push_back(M.mb[it.body].findStationLocationInGround(sp, it.station)); v.push_back(stationVel(M, sp, it.body, it.station)); }
-                p.push_back(M.mb[S.termBody].findStationLocationInGround(sp, S.termStation)); v.push_back(stationVel(M, sp, S.termBody, S.termStation));
-            } catch (const std::exception& e) { threw = true; what = e.what(); }
+                if (prep) prep();
+                M.sys.realize(sp, Stage::Velocity);
+                o.Lp = path.getCableLength(sp); o.Lpd = path.getCableLengthDot(sp);
+                const int nBp = M.matter.getNumBodies(); Vector_<SpatialVec> F(nBp); F = SpatialVec(Vec3(0), Vec3(0)); path.applyBodyForces(sp, T, F); o.Pp = 0;
+                for (MobilizedBodyIndex b(0); b < nBp; ++b) { const MobilizedBody& mb = M.matter.getMobilizedBody(b); SpatialVec V = mb.getBodyVelocity(sp); o.Pp += dot(F[b][0], V[0]) + dot(F[b][1], V[1]); o.netF += F[b][1]; o.netM += F[b][0] + mb.getBodyOriginLocation(sp) % F[b][1]; }
+                o.Pc = path.calcCablePower(sp, T);
+                o.p.push_back(M.mb[S.originBody].findStationLocationInGround(sp, S.originStation)); o.v.push_back(stationVel(M, sp, S.originBody, S.originStation));
+                for (auto& it : S.items) if (it.kind == VIA) { o.p.push_back(M.mb[it.body].findStationLocationInGround(sp, it.station)); o.v.push_back(stationVel(M, sp, it.body, it.station)); }
+                o.p.push_back(M.mb[S.termBody].findStationLocationInGround(sp, S.termStation)); o.v.push_back(stationVel(M, sp, S.termBody, S.termStation));
+            } catch (const std::exception& e) { o.threw = true; o.what = e.what(); }
             fflush(stdout); std::cout.flush(); if (saved >= 0) { dup2(saved, 1); close(saved); }
-        }
-        if (threw) { ctx.label("cablepath:exception"); if (ctx.wantDesc) ctx.desc << "CablePath exception: " << what.substr(0, 200) << "\n"; }
-        else {
-            double refL = 0, refLd = 0; bool degenerate = false; for (size_t i = 0; i + 1 < p.size(); ++i) { Vec3 e = p[i + 1] - p[i]; double l = e.norm(); if (l < 1e-6) { degenerate = true; break; } refL += l; refLd += dot(e / l, v[i + 1] - v[i]); }
-            if (degenerate) ctx.label("cablepath:degenerate-segment");
-            else {
-                ctx.label("cablepath:checked");
-                if (ctx.wantDesc) ctx.desc << "CablePath length=" << Lp << " (polyline " << refL << ") lengthDot=" << Lpd << " (closed form " << refLd << ") power=" << Pp << "\n";
-                if (!(std::abs(Lp - refL) <= 1e-12 * std::max(refL, 1.0))) { ctx.fail("CablePath (via points only): getCableLength " + fmt(Lp) + " != length of the polyline through its points " + fmt(refL)); return; }
-                if (!(std::abs(Lpd - refLd) <= 1e-10 * std::max(speed, 1.0))) { ctx.fail("CablePath (via points only): getCableLengthDot " + fmt(Lpd) + " != sum of direction . relative end velocity " + fmt(refLd)); return; }
-                if (!(std::abs(Pp + T * Lpd) <= 1e-9 * T * std::max(speed, 1.0))) { ctx.fail("CablePath (via points only): power of applied forces " + fmt(Pp) + " != -tension*lengthDot " + fmt(-T * Lpd)); return; }
-                if (!(std::abs(Pc - Pp) <= 1e-9 * T * std::max(speed, 1.0))) { ctx.fail("CablePath (via points only): calcCablePower " + fmt(Pc) + " != sum of force . velocity " + fmt(Pp)); return; }
-                if (!(netF.norm() <= 1e-9 * T && netM.norm() <= 1e-9 * T * std::max(refL, 1.0))) { ctx.fail("CablePath (via points only): applied forces are not an internal force system: net force " + fmt(netF) + " net moment " + fmt(netM)); return; }
-                if (S.nObst == 0 && !(std::abs(Lp - d.L) <= 1e-12 * std::max(refL, 1.0))) { ctx.fail("CablePath and CableSpan with the same via points disagree on the length: " + fmt(Lp) + " vs " + fmt(d.L)); return; }
+            return o; };
+        // judge one evaluation against the closed forms; returns 0 failed, 1 judged, 2 not judgeable
+        auto judgePath = [&](const PD& o, const State& sp, const std::string& tag, bool first) -> int {
+            if (o.threw) { ctx.label("cablepath:exception"); if (ctx.wantDesc) ctx.desc << tag << "CablePath exception: " << o.what.substr(0, 200) << "\n"; return 2; }
+            double spd = 0; for (MobilizedBodyIndex b(0); b < M.matter.getNumBodies(); ++b) { SpatialVec V = M.matter.getMobilizedBody(b).getBodyVelocity(sp); spd = std::max(spd, V[1].norm() + V[0].norm() * scale); }
+            double refL = 0, refLd = 0; bool degenerate = false; for (size_t i = 0; i + 1 < o.p.size(); ++i) { Vec3 e = o.p[i + 1] - o.p[i]; double l = e.norm(); if (l < 1e-6) { degenerate = true; break; } refL += l; refLd += dot(e / l, o.v[i + 1] - o.v[i]); }
+            if (degenerate) { ctx.label("cablepath:degenerate-segment"); return 2; }
+            if (first) ctx.label("cablepath:checked");
+            if (ctx.wantDesc) ctx.desc << tag << "CablePath length=" << o.Lp << " (polyline " << refL << ") lengthDot=" << o.Lpd << " (closed form " << refLd << ") power=" << o.Pp << "\n";
+            if (!(std::abs(o.Lp - refL) <= 1e-12 * std::max(refL, 1.0))) { ctx.fail(tag + "CablePath (via points only): getCableLength " + fmt(o.Lp) + " != length of the polyline through its points " + fmt(refL)); return 0; }
+            if (!(std::abs(o.Lpd - refLd) <= 1e-10 * std::max(spd, 1.0))) { ctx.fail(tag + "CablePath (via points only): getCableLengthDot " + fmt(o.Lpd) + " != sum of direction . relative end velocity " + fmt(refLd)); return 0; }
+            if (!(std::abs(o.Pp + T * o.Lpd) <= 1e-9 * T * std::max(spd, 1.0))) { ctx.fail(tag + "CablePath (via points only): power of applied forces " + fmt(o.Pp) + " != -tension*lengthDot " + fmt(-T * o.Lpd)); return 0; }
+            if (!(std::abs(o.Pc - o.Pp) <= 1e-9 * T * std::max(spd, 1.0))) { ctx.fail(tag + "CablePath (via points only): calcCablePower " + fmt(o.Pc) + " != sum of force . velocity " + fmt(o.Pp)); return 0; }
+            if (!(o.netF.norm() <= 1e-9 * T && o.netM.norm() <= 1e-9 * T * std::max(refL, 1.0))) { ctx.fail(tag + "CablePath (via points only): applied forces are not an internal force system: net force " + fmt(o.netF) + " net moment " + fmt(o.netM)); return 0; }
+            return 1; };
+        State& sp = M.state;
+        PD o0 = evalPath(sp, [&]() { M.finish(S.model); M.setState(S.model); });
+        int r0 = judgePath(o0, sp, "", true); if (r0 == 0) return;
+        if (r0 == 1 && S.nObst == 0 && !(std::abs(o0.Lp - d.L) <= 1e-12 * std::max(o0.Lp, 1.0))) { ctx.fail("CablePath and CableSpan with the same via points disagree on the length: " + fmt(o0.Lp) + " vs " + fmt(d.L)); return; }
+        // same-State history on the CablePath state: u only, q only, t only; each judged by the closed forms and against a fresh State
+        if (r0 == 1) {
+            auto againstFresh = [&](const PD& o, const std::string& tag) -> bool {
+                State f = sp; PD of = evalPath(f, [&]() { f.updQ() = sp.getQ(); f.updU() = sp.getU(); });     // a copy whose q and u are written again: Position and Velocity stages recomputed
+                if (of.threw || o.threw) return true;
+                const double sc = std::max(1.0, std::abs(of.Lp)), vs = std::max(1.0, std::abs(of.Lpd));
+                if (!(std::abs(o.Lp - of.Lp) <= 1e-12 * sc && std::abs(o.Lpd - of.Lpd) <= 1e-10 * vs && std::abs(o.Pp - of.Pp) <= 1e-9 * T * vs && std::abs(o.Pc - of.Pc) <= 1e-9 * T * vs)) {
+                    ctx.fail(tag + "CablePath on the re-used State differs from a fresh State at the same (t,q,u): length " + fmt(o.Lp) + " vs " + fmt(of.Lp) + ", lengthDot " + fmt(o.Lpd) + " vs " + fmt(of.Lpd) + ", power " + fmt(o.Pp) + " vs " + fmt(of.Pp) + ", calcCablePower " + fmt(o.Pc) + " vs " + fmt(of.Pc)); return false; }
+                return true; };
+            const int nu = sp.getNU(); Vector un(nu); for (int i = 0; i < nu; ++i) un[i] = S.histU[i % 8] * (1 + 0.125 * (i / 8)); if ((un - sp.getU()).norm() == 0 && nu) un[0] += 1;
+            for (int step = 0; step < 3; ++step) {
+                const int what = step == 2 ? 2 : (S.histQFirst ? 1 - step : step);     // 0 u only, 1 q only, 2 t only
+                static const char* nm[] = {"u-only", "q-only", "t-only"}; const std::string tag = std::string("[CablePath history ") + nm[what] + "] ";
+                PD o = evalPath(sp, [&]() { if (what == 0) sp.updU() = un; else if (what == 1) { Vector qd = sp.getQDot(); double m = 0; for (int i = 0; i < qd.size(); ++i) m = std::max(m, std::abs(qd[i])); sp.updQ() = sp.getQ() + (0.05 * S.histDq / std::max(1.0, m)) * qd; } else sp.updTime() = sp.getTime() + 0.37; });
+                int r = judgePath(o, sp, tag, false); if (r == 0) return; if (r == 2) break;
+                if (!againstFresh(o, tag)) return;
+                ctx.label(std::string("history:cablepath:") + nm[what]);
             }
         }
     }
@@ -442,6 +470,68 @@ void judge(Scene& S, pbt::Ctx& ctx) {
                 const double Ld2 = B2.cable->calcLengthDot(s2);
                 if (!(std::abs(Ld - Ld2) <= (1e-6 + 20 * tol) * std::max(speed, 1.0))) { ctx.fail("the two path algorithms agree on the path but not on lengthDot: " + fmt(Ld) + " vs " + fmt(Ld2)); return; }
             }
+        }
+    }
+
+    // H same-State history: on the ONE State judged above change only u, only q, only t (generated order for u/q), re-realize, and
+    //   judge every velocity-level quantity again: by the oracles above (power identity, internal force system, finite differences
+    //   with the new qdot) and against a FRESH evaluation at identical (t,q,u) (a copy whose q and u were written again, so that the
+    //   Position and Velocity stages are recomputed from the same warm start). Finally a parameter change on the same System.
+    {
+        const int nu = s.getNU(); Vector un(nu); for (int i = 0; i < nu; ++i) un[i] = S.histU[i % 8] * (1 + 0.125 * (i / 8)); if (nu && (un - s.getU()).norm() == 0) un[0] += 1;
+        std::vector<char> contactNow = d.contact; double Lnow = d.L;
+        auto contactsOf = [&](const State& st) { std::vector<char> c(S.nObst); for (int i = 0; i < S.nObst; ++i) c[i] = cable.isInContactWithObstacle(st, CableSpanObstacleIndex(i)); return c; };
+        // returns 0 failed, 1 judged, 2 stop (not judgeable)
+        auto judgeStep = [&](const std::string& nm, bool positionChanged) -> int {
+            const std::string tag = "[history " + nm + "] ";
+            try { sys.realize(s, Stage::Velocity); } catch (const std::exception&) { ctx.label("history:" + nm + ":exception"); return 2; }
+            if (!(cable.getSmoothness(s) <= tol)) { ctx.label("history:" + nm + ":unconverged"); return 2; }
+            const double L = cable.calcLength(s);
+            if (!positionChanged) {   // q untouched: the Position stage must not have been recomputed differently
+                if (nm == "u-only" && !(L == Lnow)) { ctx.fail(tag + "calcLength changed from " + fmt(Lnow) + " to " + fmt(L) + " although only u was changed"); return 0; }
+                if (!(std::abs(L - Lnow) <= (1e-9 + tol) * scale)) { ctx.fail(tag + "calcLength changed from " + fmt(Lnow) + " to " + fmt(L) + " although q was not changed"); return 0; }
+            }
+            contactNow = contactsOf(s); Lnow = L;
+            VelData v; if (!checkW(s, tag, v)) return 0;
+            // (i) fresh evaluation at identical (t,q,u)
+            State f = s; f.updQ() = s.getQ(); f.updU() = s.getU();
+            try { sys.realize(f, Stage::Velocity); } catch (const std::exception&) { ctx.label("history:" + nm + ":fresh-exception"); return 2; }
+            if (!(cable.getSmoothness(f) <= tol) || contactsOf(f) != contactNow) { ctx.label("history:" + nm + ":fresh-differs-in-topology"); return 2; }
+            const double spd = std::max(speedOf(s), 1.0), Lf = cable.calcLength(f), Ldf = cable.calcLengthDot(f), Pcf = cable.calcCablePower(f, T);
+            if (!(std::abs(L - Lf) <= (1e-9 + tol) * scale)) { ctx.fail(tag + "calcLength on the re-used State " + fmt(L) + " != fresh evaluation at the same (t,q,u) " + fmt(Lf)); return 0; }
+            if (!(std::abs(v.Ld - Ldf) <= (1e-8 + 20 * tol) * spd)) { ctx.fail(tag + "calcLengthDot on the re-used State " + fmt(v.Ld) + " != fresh evaluation at the same (t,q,u) " + fmt(Ldf)); return 0; }
+            if (!(std::abs(v.Pc - Pcf) <= (1e-8 + 20 * tol) * spd * T)) { ctx.fail(tag + "calcCablePower on the re-used State " + fmt(v.Pc) + " != fresh evaluation at the same (t,q,u) " + fmt(Pcf)); return 0; }
+            // (ii) lengthDot = dL/dq . qdot by finite differences with the CURRENT qdot
+            if (!S.defaultTol && !checkFD(s, v.Ld, contactNow, tag, "fd-history")) return 0;
+            ctx.label("history:" + nm);
+            return 1;
+        };
+        bool go = true;
+        for (int step = 0; step < 3 && go; ++step) {
+            const int what = step == 2 ? 2 : (S.histQFirst ? 1 - step : step);     // 0 u only, 1 q only, 2 t only
+            int r;
+            if (what == 0) { s.updU() = un; r = judgeStep("u-only", false); }
+            else if (what == 1) { Vector qd = s.getQDot(); double m = 0; for (int i = 0; i < qd.size(); ++i) m = std::max(m, std::abs(qd[i]));
+                Vector qn = s.getQ() + (0.02 * S.histDq / std::max(1.0, m)) * qd; s.updQ() = qn; r = judgeStep("q-only", true); }
+            else { s.updTime() = s.getTime() + 0.37; r = judgeStep("t-only", false); }
+            if (r == 0) return; if (r == 2) go = false;
+        }
+        // parameter-only change (CableSpan's parameters are topology-level: same System and cable object, new topology realization and State)
+        if (go) {
+            const Vector qk = s.getQ(), uk = s.getU(); const std::vector<char> contactK = contactNow; const double Lk = Lnow, Ldk = cable.calcLengthDot(s);
+            std::vector<Vec3> Pk, Qk; for (int i = 0; i < S.nObst; ++i) if (contactK[i]) { Pk.push_back(cable.calcCurveSegmentInitialFrenetFrame(s, CableSpanObstacleIndex(i)).p()); Qk.push_back(cable.calcCurveSegmentFinalFrenetFrame(s, CableSpanObstacleIndex(i)).p()); }
+            try {
+                B.cable->setCurveSegmentAccuracy(S.curveAcc == 1e-12 ? 1e-11 : 1e-12);
+                const double tk = s.getTime(); B.m->finish(S.model); State& n = B.m->state; n.updTime() = tk; n.updQ() = qk; n.updU() = uk; B.m->sys.realize(n, Stage::Velocity);   // (finish: realizeTopology + the modelling options)
+                bool same = cable.getSmoothness(n) <= tol && contactsOf(n) == contactK; size_t c = 0;
+                for (int i = 0; i < S.nObst && same; ++i) if (contactK[i]) { if ((cable.calcCurveSegmentInitialFrenetFrame(n, CableSpanObstacleIndex(i)).p() - Pk[c]).norm() > 1e-4 * scale || (cable.calcCurveSegmentFinalFrenetFrame(n, CableSpanObstacleIndex(i)).p() - Qk[c]).norm() > 1e-4 * scale) same = false; ++c; }
+                if (!same) ctx.label("history:param-rebuild:different-branch");
+                else { ctx.label("history:param-rebuild");
+                    const double spd = std::max(speedOf(n), 1.0);
+                    if (!(std::abs(cable.calcLength(n) - Lk) <= 1e-6 * scale)) { ctx.fail("[history parameter] after changing only the curve segment accuracy (same path, same contacts) calcLength went from " + fmt(Lk) + " to " + fmt(cable.calcLength(n))); return; }
+                    if (!(std::abs(cable.calcLengthDot(n) - Ldk) <= (1e-6 + 20 * tol) * spd)) { ctx.fail("[history parameter] after changing only the curve segment accuracy (same path, same contacts) calcLengthDot went from " + fmt(Ldk) + " to " + fmt(cable.calcLengthDot(n))); return; }
+                    VelData v; if (!checkW(n, "[history parameter] ", v)) return; }
+            } catch (const std::exception&) { ctx.label("history:param-rebuild:exception"); }
         }
     }
 }
@@ -479,7 +569,7 @@ pbt::Config config() {
         S.nObst = 1; g_noExclusions = true; judge(S, ctx); g_noExclusions = false;
         if (ctx.isRejected) ctx.desc << "(rejected: " << ctx.rejectReason << ")\n";
     }});
-    c.requiredLabels = {"cablepath:checked", "lengthdot:closed-form-checked", "contact:sphere", "contact:cylinder", "contact:ellipsoid", "contact:torus", "item:via", "lift-off", "fd:checked", "alg-compare:checked", "alg:Scholz2015", "alg:MinimumLength"};
+    c.requiredLabels = {"history:u-only", "history:q-only", "history:t-only", "history:param-rebuild", "history:cablepath:u-only", "history:cablepath:q-only", "history:cablepath:t-only", "fd-history:checked", "cablepath:checked", "lengthdot:closed-form-checked", "contact:sphere", "contact:cylinder", "contact:ellipsoid", "contact:torus", "item:via", "lift-off", "fd:checked", "alg-compare:checked", "alg:Scholz2015", "alg:MinimumLength"};
     return c;
 }
 } // namespace
